@@ -63,9 +63,17 @@ def make_skeleton(spec):
             props.append('p%d: {%s}<string | null, null>' % (i, nm))
         else:
             props.append('p%d%s: %s' % (i, '?' if spec.get('optional') else '', t.replace('{', '{{').replace('}', '}}')))
+    ptype = '{{ %s }}' % '; '.join(props)
+    if spec.get('redecl'):
+        # the same keys declared a second time by another member of a union of object types:
+        # a value of the prop is a value of either declaration
+        esc = lambda t: t.replace('{', '{{').replace('}', '}}')
+        first = ['p%d%s: %s' % (i, '?' if o1 else '', esc(a)) for i, (a, o1, b, o2) in enumerate(spec['redecl'])]
+        second = ['p%d%s: %s' % (i, '?' if o2 else '', esc(b)) for i, (a, o1, b, o2) in enumerate(spec['redecl'])]
+        ptype = '{{ %s }} | {{ %s }}' % ('; '.join(first), '; '.join(second))
     src = "import {{ defineComponent }} from 'vue';\n" + DECLS.replace('{', '{{').replace('}', '}}') + \
-          'export default defineComponent((props: {{ %s }}) => () => null);\n' % '; '.join(props)
-    return Skeleton('c17#' + '|'.join(spec['types'])[:80] + ('?' if spec.get('optional') else ''), src, leaves, {'resolve_type': True}, tsx=True, meta={'family': 'c17'})
+          'export default defineComponent((props: %s) => () => null);\n' % ptype
+    return Skeleton('c17#' + ('redecl:' + ';'.join('%s%s/%s%s' % (a, '?' if o1 else '', b, '?' if o2 else '') for a, o1, b, o2 in spec['redecl'])[:90] if spec.get('redecl') else '|'.join(spec['types'])[:80]) + ('?' if spec.get('optional') else ''), src, leaves, {'resolve_type': True}, tsx=True, meta={'family': 'c17'})
 
 
 def extra_constraints(skel):
@@ -535,8 +543,18 @@ def oracle(env):
     tl = first_param_members(calls_in[0])
     te = TypeEnv(env)
     obs = []
-    for m in tl.fields[0].get('members'):
-        m = deref(m)
+    lits = [tl]
+    if tl.variant == 'TsUnionOrIntersectionType' and tl.fields[0].variant == 'TsUnionType':
+        lits = [deref(x) for x in tl.fields[0].fields[0].get('types')]
+    if any(l.variant != 'TsTypeLit' for l in lits):
+        raise Unsupported('harness: the props annotation is not an object type or a union of object types')
+    all_members = [deref(m) for l in lits for m in l.fields[0].get('members')]
+    declared = {}
+    for m in all_members:
+        if m.variant == 'TsPropertySignature' and is_some(m.fields[0].get('type_ann')):
+            declared.setdefault(denote.E(m.fields[0].get('key')).fields[0].get('sym').py(), []).append(deref(deref(m.fields[0].get('type_ann').fields[0]).get('type_ann')))
+    seen = set()
+    for m in all_members:
         if m.variant != 'TsPropertySignature':
             continue
         ps = m.fields[0]
@@ -544,7 +562,11 @@ def oracle(env):
         kname = key.fields[0].get('sym')
         if not is_some(ps.get('type_ann')):
             continue
+        if kname.py() in seen:
+            continue
+        seen.add(kname.py())
         ty = deref(deref(ps.get('type_ann').fields[0]).get('type_ann'))
+        redeclared = declared[kname.py()][1:]
         hit = [en for en in pents if en[0] == 'kv' and isinstance(en[1], SStr) and en[1].is_concrete() and en[1].py() == kname.py()]
         if not hit:
             obs.append(Obligation('every declared prop is emitted', False, {'prop': kname}))
@@ -553,7 +575,7 @@ def oracle(env):
             elist, req = emitted_types(ctx, hit[-1][2])
         except OracleGap as g:
             raise Unsupported('oracle gap: %s' % g)
-        order = declaration_order(te, ty)
+        order = declaration_order(te, ty) if not redeclared else None
         if order is not None and 'string' in order and 'boolean' in order:
             rl, _ = emitted_types(ctx, hit[-1][2], raw=True)
             names = [denote.pystr(c) if c is not None else None for c in (rl or [])]
@@ -561,12 +583,14 @@ def oracle(env):
             obs.append(Obligation('Boolean and String stand in the emitted type list in the order they are declared', ok,
                                   {'prop': kname, 'declared': [o for o in order if o != 'x'][:6], 'emitted': names, 'type': _type_text(env, ps)}))
         inh = inhabitants(te, ty)
+        for other in redeclared:
+            inh = inh | inhabitants(te, other)
         for k in sorted(inh):
             if k == 'null' and req is False:
                 continue          # Vue skips validation of null/undefined for optional props
             obs.append(Obligation('the runtime type accepts every value of the declared TS type', accepts(ctx, elist, k),
                                   {'prop': kname, 'value_kind': k, 'emitted': ['null' if c is None else c for c in elist] if elist is not None else None,
-                                   'type': _type_text(env, ps)}))
+                                   'type': _type_text(env, ps), 'declarations': 1 + len(redeclared)}))
     return obs
 
 
@@ -606,6 +630,12 @@ def jobs(tier):
     quads = [' | '.join(t) for t in itertools.permutations(['string', 'boolean', 'any', 'number', 'unknown'], 4) if 'string' in t and 'boolean' in t]
     for ch in chunks(unions + inters + wrapped + triples + quads, 16):
         out.append({'types': ch})
+    # the same key declared by two members of a union of object types, either declaration optional
+    rb = ['string', 'number', 'boolean', 'Date', '() => void', 'string[]', 'Al1', 'null'] if tier == 'quick' else base
+    pairs = [(a, b) for a, b in itertools.permutations(rb, 2)]
+    for o1, o2 in ((False, False), (False, True), (True, False), (True, True)):
+        for ch in chunks(pairs, 14):
+            out.append({'types': [], 'redecl': [(a, o1, b, o2) for a, b in ch]})
     for n in ([3, 4, 5, 6, 7] if tier == 'quick' else [2, 3, 4, 5, 6, 7, 8, 9, 10]):
         out.append({'types': ['sym%d' % n]})
         out.append({'types': ['gen%d' % n]})
